@@ -10,6 +10,7 @@ import (
 	"context"
 	"fmt"
 	"sort"
+	"sync"
 	"sync/atomic"
 	"time"
 
@@ -230,11 +231,15 @@ func ExecRound(dir string, prevRoot []byte, rd Round) (root []byte, dead []strin
 func Prune(dir string, v int64) error {
 	ctx := context.Background()
 	if v%2 == 0 {
-		ctx = util.WithPruneStats(ctx)
+		// one statistics context per store, used for every such prune of it (the worker keeps its context)
+		c, _ := pruneCtx.LoadOrStore(dir, util.WithPruneStats(ctx))
+		ctx = c.(context.Context)
 		util.GetPruneStats(ctx).Stage = util.PruneStateDelete
 	}
 	return mptkit.Reopen(dir).PruneBelowVersion(ctx, v)
 }
+
+var pruneCtx sync.Map
 
 // CheckReadable opens the store alone (fresh PNodeDB object, fresh trie and cache) at a
 // saved root and requires exactly the model content, by the trie's own Iterate and
